@@ -9,6 +9,7 @@ import (
 	"math/big"
 	"sort"
 	"strings"
+	"sync/atomic"
 )
 
 type Sort int
@@ -357,6 +358,10 @@ func (t *T) write(sb *strings.Builder) {
 		}
 	case "num":
 		sb.WriteString(smtNum(t.Num, t.Sort))
+	case "forall":
+		sb.WriteString("(forall ((" + smtName(t.Name) + " " + t.Args[0].Sort.String() + ")) ")
+		t.Args[1].write(sb)
+		sb.WriteByte(')')
 	default:
 		sb.WriteByte('(')
 		sb.WriteString(t.Op)
@@ -387,6 +392,15 @@ func freeVars(t *T, into map[string]Sort) {
 		into[t.Name] = t.Sort
 		return
 	}
+	if t.Op == "forall" {
+		inner := map[string]Sort{}
+		freeVars(t.Args[1], inner)
+		delete(inner, t.Name)
+		for k, v := range inner {
+			into[k] = v
+		}
+		return
+	}
 	for _, a := range t.Args {
 		freeVars(a, into)
 	}
@@ -411,6 +425,14 @@ func subst(t *T, m map[string]*T) *T {
 		return t
 	case "num", "bool":
 		return t
+	case "forall":
+		m2 := map[string]*T{}
+		for k, v := range m {
+			if k != t.Name {
+				m2[k] = v
+			}
+		}
+		return mkForall(t.Args[0], subst(t.Args[1], m2))
 	}
 	args := make([]*T, len(t.Args))
 	for i, a := range t.Args {
@@ -443,7 +465,19 @@ func rebuild(op string, s Sort, args []*T) *T {
 		return toReal(args[0])
 	case "to_int":
 		return floorInt(args[0])
+	case "div":
+		if args[0].Op == "num" && args[1].Op == "num" && args[1].Num.Sign() != 0 {
+			a, b := args[0].Num.Num(), args[1].Num.Num()
+			q, m := new(big.Int).DivMod(a, b, new(big.Int)) // Euclidean
+			_ = m
+			return mkIntBig(q)
+		}
 	case "mod":
+		if args[0].Op == "num" && args[1].Op == "num" && args[1].Num.Sign() != 0 {
+			a, b := args[0].Num.Num(), args[1].Num.Num()
+			_, m := new(big.Int).DivMod(a, b, new(big.Int))
+			return mkIntBig(m)
+		}
 		if a, ok := args[0].intVal(); ok {
 			if b, ok := args[1].intVal(); ok && b != 0 {
 				m := a % b
@@ -460,3 +494,121 @@ func rebuild(op string, s Sort, args []*T) *T {
 	}
 	return &T{Op: op, Args: args, Sort: s}
 }
+
+// mkForall binds the variable v in body.
+func mkForall(v *T, body *T) *T {
+	if body.isConst() {
+		return body
+	}
+	return &T{Op: "forall", Name: v.Name, Sort: SBool, Args: []*T{v, body}}
+}
+
+// isIntegral: syntactic integrality of a (Real- or Int-sorted) term.
+func isIntegral(t *T) bool {
+	if t.Sort == SInt {
+		return true
+	}
+	switch t.Op {
+	case "num":
+		return t.Num.IsInt()
+	case "to_real":
+		return true
+	case "+", "-", "*":
+		for _, a := range t.Args {
+			if !isIntegral(a) {
+				return false
+			}
+		}
+		return true
+	case "ite":
+		return isIntegral(t.Args[1]) && isIntegral(t.Args[2])
+	}
+	return false
+}
+
+// toIntTerm converts a syntactically integral term to sort Int.
+func toIntTerm(t *T) *T {
+	if t.Sort == SInt {
+		return t
+	}
+	switch t.Op {
+	case "num":
+		return mkIntBig(t.Num.Num())
+	case "to_real":
+		return t.Args[0]
+	case "+", "-", "*":
+		return mkArith(t.Op, toIntTerm(t.Args[0]), toIntTerm(t.Args[1]))
+	case "ite":
+		return mkIte(t.Args[0], toIntTerm(t.Args[1]), toIntTerm(t.Args[2]))
+	}
+	panic("toIntTerm of non-integral term " + t.String())
+}
+
+func mkIsInt(t *T) *T {
+	if isIntegral(t) {
+		return tTrue
+	}
+	return mkEq(toReal(floorInt(t)), t)
+}
+
+// numCtx provides floor as an Int term; providers introduce a fresh integer k
+// with k <= a < k+1 instead of SMT to_int (far easier for the solvers).
+type numCtx struct {
+	floorFn func(a *T) *T
+}
+
+func (n numCtx) floor(a *T) *T {
+	if a.Sort == SInt {
+		return a
+	}
+	if a.Op == "num" {
+		return floorInt(a)
+	}
+	if isIntegral(a) {
+		return toIntTerm(a)
+	}
+	return n.floorFn(a)
+}
+
+func (n numCtx) ceil(a *T) *T {
+	if a.Sort == SInt {
+		return a
+	}
+	return mkArith("-", mkInt(0), n.floor(mkArith("-", mkReal(ratInt(0)), a)))
+}
+
+// trunc64 is Go's float64 -> int64 conversion on amd64: truncation toward zero
+// inside [-2^63, 2^63), 0x8000000000000000 (MinInt64) outside.
+func (n numCtx) trunc64(a *T) *T {
+	a = toReal(a)
+	zero := mkReal(ratInt(0))
+	tr := mkIte(mkCmp(">=", a, zero), n.floor(a), n.ceil(a))
+	lo := mkReal(new(big.Rat).SetInt(new(big.Int).Neg(pow2(63))))
+	hi := mkReal(new(big.Rat).SetInt(pow2(63)))
+	in := mkAnd(mkCmp(">=", a, lo), mkCmp("<", a, hi))
+	return mkIte(in, tr, mkIntBig(new(big.Int).Neg(pow2(63))))
+}
+
+// round is math.Round (half away from zero) on the real value.
+func (n numCtx) round(a *T) *T {
+	a = toReal(a)
+	if isIntegral(a) {
+		return a
+	}
+	zero := mkReal(ratInt(0))
+	half := mkReal(big.NewRat(1, 2))
+	pos := n.floor(mkArith("+", a, half))
+	neg := n.ceil(mkArith("-", a, half))
+	return toReal(mkIte(mkCmp(">=", a, zero), pos, neg))
+}
+
+var freshCounter int64
+
+func freshIntDef(a *T, sink func(*T)) *T {
+	k := mkVar(fmt.Sprintf("flr!%d", atomic.AddInt64(&freshCounter, 1)), SInt)
+	kr := toReal(k)
+	sink(mkAnd(mkCmp("<=", kr, a), mkCmp("<", a, mkArith("+", kr, mkReal(ratInt(1))))))
+	return k
+}
+
+var plainNum = numCtx{floorFn: func(a *T) *T { return floorInt(a) }}
